@@ -44,6 +44,7 @@ type SpecEnv struct {
 	depth    int
 	what     string
 	qcount   *int
+	absProbe *absProbe
 }
 
 func (env *SpecEnv) fail(f string, a ...interface{}) {
@@ -216,12 +217,7 @@ func (env *SpecEnv) eval(n *SNode) Val {
 			if n.Args[2] != nil {
 				hi = env.eval(n.Args[2]).S
 			}
-			if lo == "0" {
-				return mkString(base.T, base.content(), hi)
-			}
-			c := st.fc.fresh("substr", "(Array Int Int)")
-			st.facts = st.facts.push(fmt.Sprintf("(forall ((g_k Int)) (! (= (select %s g_k) (select %s (+ g_k %s))) :pattern ((select %s g_k))))", c, base.content(), lo, c))
-			return mkString(base.T, c, sSub(hi, lo))
+			return mkString(base.T, base.content(), sAdd(base.soff(), lo), sSub(hi, lo))
 		}
 		env.fail("cannot slice %s", n.Args[0].String())
 	case "call":
@@ -333,11 +329,19 @@ func (env *SpecEnv) trySelect(base Val, field string) (v Val, ok bool) {
 
 func (env *SpecEnv) index(base, idx Val, n *SNode) Val {
 	st := env.st
+	if env.absProbe != nil && env.absProbe.off == "" && idx.S == env.absProbe.name {
+		switch base.K {
+		case KSlice:
+			env.absProbe.off = base.off()
+		case KString:
+			env.absProbe.off = base.soff()
+		}
+	}
 	switch base.K {
 	case KSlice:
 		return st.loadElem(env.heapMap(), base, idx.S)
 	case KString:
-		return vInt(sSel(base.content(), idx.S), types.Typ[types.Uint8])
+		return vInt(base.at(idx.S), types.Typ[types.Uint8])
 	case KArray:
 		at := base.T.Underlying().(*types.Array)
 		terms := make([]string, len(base.Sub))
@@ -450,7 +454,6 @@ func (env *SpecEnv) evalBin(n *SNode) Val {
 }
 
 func (env *SpecEnv) evalQuant(n *SNode) Val {
-	st := env.st
 	bind := map[string]Val{}
 	var decl []string
 	var names []string
@@ -461,21 +464,47 @@ func (env *SpecEnv) evalQuant(n *SNode) Val {
 		decl = append(decl, "("+name+" Int)")
 		names = append(names, name)
 	}
+	var lo, hi string
+	if n.Args[0] != nil {
+		lo = env.eval(n.Args[0]).S
+		hi = env.eval(n.Args[1]).S
+	}
+	// absolute-index form: if the body indexes a slice/string with exactly the bound variable and that
+	// sequence has a non-zero offset O, quantify over g = O + k instead, so that select(row, g) is a
+	// purely syntactic trigger (arithmetic moves to the non-trigger side).
+	if len(n.Vars) == 1 {
+		env.absProbe = &absProbe{name: names[0]}
+		func() {
+			defer func() { recover() }()
+			env.child(bind).eval(n.Args[2])
+		}()
+		off := env.absProbe.off
+		env.absProbe = nil
+		if off != "" && off != "0" {
+			*env.qcount++
+			g := fmt.Sprintf("g_qabs_%d", *env.qcount)
+			bind[n.Vars[0]] = vInt("(- "+g+" "+off+")", nil)
+			decl = []string{"(" + g + " Int)"}
+			names = []string{"(- " + g + " " + off + ")"}
+		}
+	}
 	c := env.child(bind)
 	var rng []string
 	if n.Args[0] != nil {
-		lo := env.eval(n.Args[0]).S
-		hi := env.eval(n.Args[1]).S
 		for _, nm := range names {
 			rng = append(rng, sCmp("<=", lo, nm), sCmp("<", nm, hi))
 		}
 	}
 	body := c.evalBool(n.Args[2])
-	_ = st
 	if n.Op == "forall" {
 		return vBool(fmt.Sprintf("(forall (%s) %s)", strings.Join(decl, " "), sImp(sAnd(rng...), body)))
 	}
 	return vBool(fmt.Sprintf("(exists (%s) %s)", strings.Join(decl, " "), sAnd(append(rng, body)...)))
+}
+
+type absProbe struct {
+	name string
+	off  string
 }
 
 func (env *SpecEnv) evalCall(n *SNode) Val {
@@ -567,10 +596,109 @@ func (env *SpecEnv) evalCall(n *SNode) Val {
 			return vBool("true")
 		}
 		return vBool(sOr(sNot(sEq(a.arr(), b.arr())), sCmp("<=", sAdd(a.off(), a.capa()), b.off()), sCmp("<=", sAdd(b.off(), b.capa()), a.off())))
+	case "sameSeq":
+		// two byte sequences denote the same memory / the same immutable content
+		a := env.eval(n.Args[0])
+		b := env.eval(n.Args[1])
+		if a.K == KSlice && b.K == KString {
+			a, b = b, a
+		}
+		switch {
+		case a.K == KString && b.K == KString:
+			return vBool(sAnd(sEq(a.content(), b.content()), sEq(a.soff(), b.soff()), sEq(a.length(), b.length())))
+		case a.K == KString && b.K == KSlice:
+			h := st.heapIn(env.heapMap(), "E!uint8!", "(Array Int (Array Int Int))")
+			return vBool(sAnd(sEq(a.content(), sSel(h, b.arr())), sEq(a.soff(), b.off()), sEq(a.length(), b.length())))
+		case a.K == KSlice && b.K == KSlice:
+			return vBool(sAnd(sEq(a.arr(), b.arr()), sEq(a.off(), b.off()), sEq(a.length(), b.length())))
+		}
+		env.fail("sameSeq on unsupported values")
+	case "isString":
+		v := env.eval(n.Args[0])
+		return vBool(boolStr(v.K == KString))
 	case "sameSlice":
 		a := env.eval(n.Args[0])
 		b := env.eval(n.Args[1])
+		if a.K != KSlice || b.K != KSlice {
+			return vBool("false")
+		}
 		return vBool(sAnd(sEq(a.arr(), b.arr()), sEq(a.off(), b.off()), sEq(a.length(), b.length()), sEq(a.capa(), b.capa())))
+	case "runeCountFrom", "runeAt", "widthAt":
+		// exact UTF-8 decoding of a string / byte sequence value at byte offset i
+		sv := env.eval(n.Args[0])
+		i := env.eval(n.Args[1]).S
+		st.fc.V.utf8Prelude()
+		var c, p, e string
+		switch sv.K {
+		case KString:
+			c, p, e = sv.content(), sAdd(sv.soff(), i), sAdd(sv.soff(), sv.length())
+		case KSlice:
+			h := st.heapIn(env.heapMap(), "E!uint8!", "(Array Int (Array Int Int))")
+			c, p, e = sSel(h, sv.arr()), sAdd(sv.off(), i), sAdd(sv.off(), sv.length())
+		default:
+			env.fail("%s needs a string or byte slice", n.Text)
+		}
+		switch n.Text {
+		case "runeAt":
+			return vInt(sApp("g_utf8_rune", c, p, e), nil)
+		case "widthAt":
+			return vInt(sApp("g_utf8_width", c, p, e), nil)
+		}
+		st.fc.V.addPrelude("u8count", "(define-fun-rec g_u8count ((c (Array Int Int)) (p Int) (e Int)) Int (ite (>= p e) 0 (+ 1 (g_u8count c (+ p (g_utf8_width c p e)) e))))")
+		return vInt(sApp("g_u8count", c, p, e), nil)
+	case "u8count", "u8width", "u8rune":
+		c := env.eval(n.Args[0])
+		p := env.eval(n.Args[1]).S
+		e := env.eval(n.Args[2]).S
+		st.fc.V.utf8Prelude()
+		switch n.Text {
+		case "u8width":
+			return vInt(sApp("g_utf8_width", c.S, p, e), nil)
+		case "u8rune":
+			return vInt(sApp("g_utf8_rune", c.S, p, e), nil)
+		}
+		st.fc.V.addPrelude("u8count", "(define-fun-rec g_u8count ((c (Array Int Int)) (p Int) (e Int)) Int (ite (>= p e) 0 (+ 1 (g_u8count c (+ p (g_utf8_width c p e)) e))))")
+		return vInt(sApp("g_u8count", c.S, p, e), nil)
+	case "oldUntouched":
+		// every array of this element type that existed at function entry still has its entry content
+		sv := env.eval(n.Args[0])
+		if sv.K != KSlice {
+			env.fail("oldUntouched needs a slice")
+		}
+		et := sliceElemType(sv.T)
+		var parts []string
+		oe := env.inOld()
+		for _, c := range flatComps(et) {
+			cur := st.heapIn(env.heapMap(), elemHeapName(et, c), elemSort(c))
+			old := st.heapIn(oe.heapMap(), elemHeapName(et, c), elemSort(c))
+			if cur == old {
+				continue
+			}
+			*env.qcount++
+			v := fmt.Sprintf("g_q_arr_%d", *env.qcount)
+			parts = append(parts, fmt.Sprintf("(forall ((%s Int)) (! (=> (< %s %s) (= (select %s %s) (select %s %s))) :pattern ((select %s %s))))", v, v, st.fc.entryAlloc(), cur, v, old, v, cur, v))
+		}
+		return vBool(sAnd(parts...))
+	case "unchangedOutside":
+		// cells of s's backing array outside s[lo:hi] have their old() values (absolute-index form, E-matching friendly)
+		sv := env.eval(n.Args[0])
+		lo := env.eval(n.Args[1]).S
+		hi := env.eval(n.Args[2]).S
+		if sv.K != KSlice {
+			env.fail("unchangedOutside needs a slice")
+		}
+		et := sliceElemType(sv.T)
+		var parts []string
+		oe := env.inOld()
+		for _, c := range flatComps(et) {
+			cur := st.heapIn(env.heapMap(), elemHeapName(et, c), elemSort(c))
+			old := st.heapIn(oe.heapMap(), elemHeapName(et, c), elemSort(c))
+			*env.qcount++
+			v := fmt.Sprintf("g_q_abs_%d", *env.qcount)
+			parts = append(parts, fmt.Sprintf("(forall ((%s Int)) (! (=> (not (and (<= %s %s) (< %s %s))) (= (select (select %s %s) %s) (select (select %s %s) %s))) :pattern ((select (select %s %s) %s))))",
+				v, sAdd(sv.off(), lo), v, v, sAdd(sv.off(), hi), cur, sv.arr(), v, old, sv.arr(), v, cur, sv.arr(), v))
+		}
+		return vBool(sAnd(parts...))
 	case "locked", "rlocked":
 		key := n.Args[0].String()
 		lv := st.locks[key]
@@ -648,6 +776,9 @@ func (env *SpecEnv) applySpec(sf *SpecFunc, args []Val, n *SNode) Val {
 	if len(args) != len(sf.Params) {
 		env.fail("spec %s expects %d arguments", sf.Name, len(sf.Params))
 	}
+	if sf.Body != nil && !sf.Rec && sf.DefFun && scalarSpec(sf) {
+		return env.applyScalarSpec(sf, args)
+	}
 	if sf.Body != nil && !sf.Rec {
 		if env.depth > 40 {
 			env.fail("spec expansion too deep in %s (recursive spec must be declared with recspec)", sf.Name)
@@ -713,7 +844,12 @@ func (env *SpecEnv) seqOf(a Val) (string, string) {
 	st := env.st
 	switch a.K {
 	case KString:
-		return a.content(), a.length()
+		if a.soff() == "0" {
+			return a.content(), a.length()
+		}
+		c := st.fc.fresh("seqview", "(Array Int Int)")
+		st.facts = st.facts.push(fmt.Sprintf("(forall ((g_k Int)) (! (= (select %s g_k) %s) :pattern ((select %s g_k))))", c, a.at("g_k"), c))
+		return c, a.length()
 	case KSlice:
 		et := sliceElemType(a.T)
 		cs := flatComps(et)
@@ -753,4 +889,55 @@ func (fc *FuncCtx) newSpecEnv(st *State, names map[string]Val, old *Snapshot, po
 func constToBig(v constant.Value) *big.Int {
 	n, _ := new(big.Int).SetString(v.ExactString(), 10)
 	return n
+}
+
+func scalarSpec(sf *SpecFunc) bool {
+	if specSort(sf.Result) != "Int" && specSort(sf.Result) != "Bool" {
+		return false
+	}
+	for _, p := range sf.Params {
+		if s := specSort(p.Type); s != "Int" && s != "Bool" {
+			return false
+		}
+	}
+	return len(sf.Params) > 0
+}
+
+// applyScalarSpec: non-recursive spec functions over scalars become SMT define-funs (keeps VCs small).
+func (env *SpecEnv) applyScalarSpec(sf *SpecFunc, args []Val) Val {
+	st := env.st
+	V := st.fc.V
+	sym := "g_sf_" + sf.Name
+	if !V.preludeSeen[sym] {
+		V.preludeSeen[sym] = true
+		tmp := &FuncCtx{V: V, Pkg: st.fc.Pkg, Name: "spec " + sf.Name, declared: map[string]bool{}, oblCount: map[string]int{}, heapSorts: map[string]string{}}
+		ts := &State{fc: tmp, ghost: map[string]Val{}, heap: map[string]string{}, locks: map[string]int{}, alloc: "0"}
+		bind := map[string]Val{}
+		var params []string
+		for _, p := range sf.Params {
+			srt := specSort(p.Type)
+			params = append(params, "(p_"+p.Name+" "+srt+")")
+			if srt == "Bool" {
+				bind[p.Name] = vBool("p_" + p.Name)
+			} else {
+				bind[p.Name] = vInt("p_"+p.Name, nil)
+			}
+		}
+		q := 0
+		e2 := &SpecEnv{st: ts, names: bind, pkg: V.pkgByName[sf.Pkg], what: "spec " + sf.Name, qcount: &q}
+		body := e2.eval(sf.Body)
+		if len(tmp.decls) > 0 || ts.facts != nil {
+			panic(vcErr("spec " + sf.Name + " over scalars must be closed"))
+		}
+		V.prelude = append(V.prelude, fmt.Sprintf("(define-fun %s (%s) %s %s)", sym, strings.Join(params, " "), specSort(sf.Result), body.S))
+	}
+	var terms []string
+	for _, a := range args {
+		terms = append(terms, numVal(a))
+	}
+	t := sApp(sym, terms...)
+	if specSort(sf.Result) == "Bool" {
+		return vBool(t)
+	}
+	return vInt(t, nil)
 }
